@@ -12,6 +12,7 @@ import (
 	"context"
 	"fmt"
 	"sort"
+	"sync"
 	"time"
 
 	"verifharness/internal/hx"
@@ -134,8 +135,76 @@ func raceRounds(c Case, s *hx.Sink) {
 	}
 }
 
+// readerRounds: an expired record that nobody has touched yet; readers (Get, GetMany) meet it for the first time
+// while a writer stores a live record under the same key (Put, PutMany or Create - the expired record counts as
+// absent, so Create must succeed).  Whatever the order, the live record has been written successfully and neither
+// expires nor is deleted: it must be there afterwards.
+func readerRounds(c Case, s *hx.Sink) {
+	g := prng.New(c.Seed, "C06readers", c.ID)
+	ctx := context.Background()
+	for round := 0; round < c.Race*40; round++ {
+		st := inmem.New()
+		past := time.Now().Add(-time.Hour)
+		if _, err := st.Put(ctx, kvs.Record{Key: "k", Value: []byte("old"), ExpiresAt: &past}); err != nil {
+			s.DirectViolation(c.ID, "race stream: Put failed", err.Error())
+			return
+		}
+		nr := 1 + g.Intn(3)
+		start := make(chan struct{})
+		var wg sync.WaitGroup
+		for i := 0; i < nr; i++ {
+			wg.Add(1)
+			many := g.Bool()
+			go func() {
+				defer wg.Done()
+				<-start
+				for j := 0; j < 2; j++ {
+					if many {
+						st.GetMany(ctx, "k", "other")
+					} else {
+						st.Get(ctx, "k")
+					}
+				}
+			}()
+		}
+		how, spin := g.Intn(3), g.Intn(3000)
+		var werr error
+		wg.Add(1)
+		go func() {
+			defer wg.Done()
+			<-start
+			for i := 0; i < spin; i++ {
+				_ = i
+			}
+			rec := kvs.Record{Key: "k", Value: []byte("new")}
+			switch how {
+			case 0:
+				_, werr = st.Put(ctx, rec)
+			case 1:
+				werr = st.PutMany(ctx, []kvs.Record{{Key: "other", Value: []byte("o")}, rec})
+			default:
+				_, werr = st.Create(ctx, rec)
+			}
+		}()
+		close(start)
+		wg.Wait()
+		if werr != nil {
+			s.DirectViolation(c.ID, "a write over an expired record failed (an expired record is absent)", map[string]any{"round": round, "write": []string{"Put", "PutMany", "Create"}[how], "result": kvx.Class(werr)})
+			return
+		}
+		got, err := st.Get(ctx, "k")
+		if err != nil || string(got.Value) != "new" {
+			s.DirectViolation(c.ID, "a record without expiration that was written successfully (over an expired record, while readers met the expired record for the first time) is gone",
+				map[string]any{"round": round, "write": []string{"Put", "PutMany", "Create"}[how], "readers": nr, "get": kvx.Class(err)})
+			return
+		}
+	}
+	s.Count("race:readers-meet-an-expired-record-while-it-is-rewritten")
+}
+
 func runCase(c Case, s *hx.Sink) string {
 	if c.Race > 0 {
+		readerRounds(c, s)
 		raceRounds(c, s)
 		return fmt.Sprintf("mkCase %s %s %s []", hx.N(c.ID), inmemB.CoqBackend(), hx.Z(tolNs))
 	}
